@@ -1,7 +1,8 @@
 use proc_macro2::{Ident, Span, TokenStream};
 use quote::ToTokens;
 use syn::{
-    punctuated::Punctuated, spanned::Spanned, Data, DeriveInput, Expr, Lit, Meta, Token, UnOp,
+    ext::IdentExt, punctuated::Punctuated, spanned::Spanned, Data, DeriveInput, Expr, Lit, Meta,
+    Token, UnOp,
 };
 
 #[derive(Debug)]
@@ -85,7 +86,7 @@ impl DiscriminantType {
 
                         for meta in result {
                             if let Some(value) = meta.path().get_ident() {
-                                if let Some(t) = Self::parse_str(value.to_string()) {
+                                if let Some(t) = Self::parse_str(value.unraw().to_string()) {
                                     return Ok((t, None));
                                 }
                             }
@@ -101,7 +102,19 @@ impl DiscriminantType {
 
             for variant in data.variants.iter() {
                 if let Some((_, exp)) = variant.discriminant.as_ref() {
-                    match exp {
+                    // a literal written by a `macro_rules` fragment (`A = $v`) or in parentheses is
+                    // still a literal
+                    fn peel(mut exp: &Expr) -> &Expr {
+                        loop {
+                            match exp {
+                                Expr::Group(group) => exp = group.expr.as_ref(),
+                                Expr::Paren(paren) => exp = paren.expr.as_ref(),
+                                _ => break exp,
+                            }
+                        }
+                    }
+
+                    match peel(exp) {
                         Expr::Lit(lit) => {
                             if let Lit::Int(lit) = &lit.lit {
                                 counter = lit
@@ -113,7 +126,7 @@ impl DiscriminantType {
                         },
                         Expr::Unary(unary) => {
                             if let UnOp::Neg(_) = unary.op {
-                                if let Expr::Lit(lit) = unary.expr.as_ref() {
+                                if let Expr::Lit(lit) = peel(unary.expr.as_ref()) {
                                     if let Lit::Int(lit) = &lit.lit {
                                         match lit.base10_parse::<i128>() {
                                             Ok(i) => {
